@@ -29,8 +29,15 @@ def main():
         for d in c["shape"]:
             da.append_set_dimension()
         res = {"steps": []}
+        # a second Python object of the same array, read once before any calibration is set, and the views kept from the
+        # previous step: every one of them must see the calibration that is in force NOW
+        first = da
+        other = b.data_arrays["a%d" % k]
+        other[:]
+        kept = None
         for step in c["steps"]:
             coeffs, origin = step["coeffs"], step["origin"]
+            da = other if step.get("via") else first
             try:
                 for which in step.get("order", "co"):
                     if which == "c":
@@ -40,7 +47,17 @@ def main():
             except Exception as exc:
                 res["steps"].append({"error": type(exc).__name__})
                 continue
+            da = first
             whole = da[:]
+            whole2 = other[:]
+            kept_reads = None
+            if kept is not None:
+                kept_reads = []
+                for v in kept:
+                    try:
+                        kept_reads.append(frl(v[:]))
+                    except Exception as exc:
+                        kept_reads.append(type(exc).__name__)
             idx = tuple(slice(a, z, st) for a, z, st in step["region"])
             reg = da[idx]
             view = da.get_slice([a for a, _ in step["window"]], [e for _, e in step["window"]])
@@ -51,15 +68,18 @@ def main():
             tag.extent = [float(e) for _, e in step["window"]]
             tag.references.append(da)
             try:
-                tread = tag.tagged_data(0)[:]
+                tview = tag.tagged_data(0)
+                tread = tview[:]
                 tshape = list(np.shape(tread))
             except Exception as exc:
-                tread, tshape = None, type(exc).__name__
+                tview, tread, tshape = None, None, type(exc).__name__
+            kept = [v for v in (view if view.valid else None, tview) if v is not None]
             rawnow = f._h5file["data/b/data_arrays/a%d/data" % k][:]
             res["steps"].append({
                 "whole": frl(whole), "whole_dtype": str(whole.dtype), "region": frl(reg), "region_shape": list(reg.shape),
                 "view": None if vread is None else frl(vread), "view_dtype": None if vread is None else str(vread.dtype),
                 "tagged": None if tread is None else frl(tread), "tagged_shape": tshape,
+                "whole2": frl(whole2), "whole2_dtype": str(whole2.dtype), "kept": kept_reads,
                 "raw_same": bool(np.array_equal(rawnow, raw)) and str(rawnow.dtype) == str(raw.dtype),
                 "read_coeffs": [fr(x) for x in da.polynom_coefficients], "read_origin": None if da.expansion_origin is None else fr(da.expansion_origin)})
         out.append(res)
